@@ -118,7 +118,7 @@ theorem createStyle_created {r r5 : Reg} {t t' : Style} {id : Nat} (w : WF r)
   · -- fill
     unfold Points wantFill
     by_cases hz : t.fill.typ = []
-    · simp only [hz, if_true]; exact l_nil (by rw [sh2.fill]; exact hz)
+    · simp only [hz, if_true]; exact l_nil (by rw [sh2.fill]; exact newFills_nil hz)
     · simp only [hz, if_false]
       have hz2 : t2.fill.typ ≠ [] := by rw [sh2.fill]; exact hz
       cases hn : newFills t.fill with
